@@ -8,7 +8,7 @@ PID = "C15"
 RULE = ("the real proxy() spawned between real ROUTER/DEALER (and DEALER/DEALER, ROUTER/ROUTER) sockets with 1-3 scripted REQ-like clients and 1-3 "
         "scripted REP-like workers on in-memory connections, optionally a PUSH capture socket; payload shapes from the C07 grid; arrivals on both sides "
         "queued before the proxy runs (both branches ready in the same poll) or interleaved; segmented feeds; observation = bytes on every connection "
-        "and on the capture connection; distinct = distinct scenario; non-trivial = traffic in both directions or >= 2 peers on a side")
+        "and on the capture connection; exactly-once as multisets, order per (sender, receiver) pair and per sender on the capture connection; distinct = distinct scenario; non-trivial = traffic in both directions or >= 2 peers on a side")
 
 
 def payload(rng, tag):
@@ -87,6 +87,7 @@ norm_model = canon
 def judge(line, obs, orc):
     if S.bad_obs(obs):
         return "implementation " + str(obs)[:80]
+    raw_obs = obs
     obs = canon(obs)
     parts = [p.split() for p in line.split(" / ")]
     head = parts[0]
@@ -136,6 +137,32 @@ def judge(line, obs, orc):
             ms = scen_parse(bytes.fromhex(kv.get("fwire:" + c, "-").replace("-", "")))
             if sorted(map(repr, ms)) != sorted(map(repr, bwd[c])):
                 return "client %s did not receive exactly the replies addressed to it" % c
+    # order per direction: what one peer sent and one peer on the other side received keeps the sender's order
+    def in_order(sub, full):
+        idx = [full.index(m) for m in sub if m in full]
+        return idx == sorted(idx)
+    per_w = {w: list(map(repr, scen_parse(bytes.fromhex(kv.get("bwire:" + w, "-").replace("-", ""))))) for w in fedb}
+    if bt != "ROUTER":
+        for c, b in fedf.items():
+            sent = [repr(([cid[c]] if ft == "ROUTER" else []) + m) for m in scen_parse(b)]
+            for w, got in per_w.items():
+                if not in_order([g for g in got if g in sent], sent):
+                    return "worker %s received client %s's messages out of the order they were sent" % (w, c)
+    if ft == "ROUTER" and bt == "DEALER":
+        for w, b in fedb.items():
+            for c in cid:
+                sent = [repr(m[1:]) for m in scen_parse(b) if m[0] == cid[c]]
+                got = list(map(repr, scen_parse(bytes.fromhex(kv.get("fwire:" + c, "-").replace("-", "")))))
+                if not in_order([g for g in got if g in sent], sent):
+                    return "client %s received worker %s's replies out of the order they were sent" % (c, w)
+    rawkv = dict(tk.split("=", 1) for tk in raw_obs.split() if "=" in tk)
+    if rawkv.get("cwire", "-") != "-":
+        capt = [repr(m) for m in scen_parse(bytes.fromhex(rawkv["cwire"]))]
+        srcs = [[repr(([cid[c]] if ft == "ROUTER" else []) + m) for m in scen_parse(b)] for c, b in fedf.items()]
+        srcs += [[repr(m) for m in scen_parse(b)] for w, b in fedb.items()]
+        for sent in srcs:
+            if not in_order([g for g in capt if g in sent], sent):
+                return "capture socket saw one peer's messages out of the order they were sent"
     if "cwire" in kv:
         want = sorted(W.msg(m).hex() for m in fwd + [m for w, b in fedb.items() for m in scen_parse(b)])
         if kv["cwire"] != ",".join(want) and not (kv["cwire"] == "-" and not want):
